@@ -272,46 +272,73 @@ def _magic_table(ctx, res, fn, magic_read):
 
 
 def ob_read_zoom_headers(ctx, res):
+    """C10-L1z: zoom_levels x 24 bytes read once; per level and per byte order the reads are u32 level, u32 reserved, u64 data offset, u64 index offset, and
+    the ZoomHeader fields are fed from the first, third and fourth of them.  The per-level loop may sit inside or outside the byte-order match."""
+    from ..rules import equiv as EQ
+    from ..astq import iter_loops, upn
     fn = ctx.ast.fn(R, "read_zoom_headers")
     ms = endian_matches(fn.body)
     if len(ms) != 1:
-        res.fail("zoomHeaders/shape", fn, "expected one byte-order match")
+        res.undecided("zoomHeaders/shape", fn, "expected one byte-order match, found %d" % len(ms))
         return
     bufs = _buffer_size(fn)
     ok = False
     for node, sz in bufs:
-        s = strip_cast(sz)
-        if s.k == "binary" and s["op"] == "*":
-            vals = [int_value(s["l"]), int_value(s["r"])]
-            other = [up(strip_cast(x)) for x in (s["l"], s["r"])]
-            if F.SIZES["ZOOM_HEADER"] in vals and any("zoom_levels" in o for o in other):
-                ok = True
+        q = EQ.equiv(fn, sz, {"Z": r"\w+\.zoom_levels"}, lambda e: e["Z"] * F.SIZES["ZOOM_HEADER"], domain=range(0, 4), any_literals=True)
+        if q[0] == "equal":
+            ok = True
     if not ok:
         res.fail("zoomHeaders/bufsize", fn, "zoom directory buffer must be zoom_levels * 24 bytes")
     m, big, lit = ms[0]
+    loops = [l for l in iter_loops(fn.body) if any(x.k == "mcall" and x["method"].startswith("get_") for x in walk_no_nested_fn(l["body"]))]
+    outer = [l for l in loops if any(x is m for x in walk_no_nested_fn(l["body"]))]
     for arm, en in ((big, "be"), (lit, "le")):
-        from ..astq import iter_loops
-        loops = iter_loops(arm["body"])
-        if len(loops) != 1:
-            res.undecided("zoomHeaders[%s]/loop" % en, arm, "expected one per-level loop (a `for` or an iterator closure), found %d" % len(loops))
+        inner = [l for l in loops if any(x is l.node or x is getattr(l, "node", None) for x in walk_no_nested_fn(arm["body"]))]
+        mine = inner or outer
+        if len(mine) != 1:
+            res.undecided("zoomHeaders[%s]/loop" % en, arm, "expected one per-level loop (a `for` or an iterator closure) around or inside the byte-order arm, found %d" % len(mine))
             continue
-        if "zoom_levels" not in up(loops[0]["iter"]):
-            res.fail("zoomHeaders[%s]/loop" % en, arm, "the directory must be read zoom_levels times; the loop runs over `%s`" % up(loops[0]["iter"])[:60])
+        if "zoom_levels" not in upn(fn, mine[0]["iter"]):
+            res.fail("zoomHeaders[%s]/loop" % en, arm, "the directory must be read zoom_levels times; the loop runs over `%s`" % upn(fn, mine[0]["iter"])[:60])
             continue
         takes = _arm_reads_ok(res, "zoomHeader[%s]" % en, arm, F.ZOOM_HEADER, en)
         if takes is None:
             continue
-        lits = [n for n in walk_no_nested_fn(arm["body"]) if n.k == "struct" and n["path"].endswith("ZoomHeader")]
+        scope = arm["body"] if inner else mine[0]["body"]
+        lits = [n for n in walk_no_nested_fn(scope) if n.k == "struct" and n["path"].endswith("ZoomHeader")]
         if len(lits) != 1:
-            res.fail("zoomHeaders[%s]/struct" % en, arm, "one ZoomHeader literal expected")
+            res.undecided("zoomHeaders[%s]/struct" % en, arm, "expected one ZoomHeader literal per level, found %d" % len(lits))
             continue
-        fld = {x["name"]: up(strip(x["e"])) for x in lits[0]["fields"]}
-        want = {"reduction_level": takes[0].bound, "data_offset": takes[2].bound, "index_offset": takes[3].bound}
+        fld = {x["name"]: (up(strip(x["e"])) if x.get("e") is not None and not x.get("shorthand") else x["name"]) for x in lits[0]["fields"]}
+        bound = [t.bound for t in takes]
+        if any(b_ is None for b_ in (bound[0], bound[2], bound[3])):
+            # the arm yields the four reads as a tuple that is destructured outside: names by position
+            tl = m.parent
+            while tl is not None and isinstance(tl, Node) and tl.k != "let":
+                tl = tl.parent
+            tup = _tail(arm["body"])
+            if tl is not None and tl["pat"].k == "p_tuple" and len(tl["pat"]["elems"]) == 4 and tup is not None and tup.k == "tuple" and len(tup["elems"]) == 4 \
+                    and all(any(t.node is x for x in walk_no_nested_fn(e)) for t, e in zip(takes, tup["elems"])):
+                bound = [up(e).replace("mut ", "") for e in tl["pat"]["elems"]]
+            else:
+                res.undecided("zoomHeaders[%s]/flow" % en, arm, "how the four reads reach the ZoomHeader fields was not recognised")
+                continue
+        want = {"reduction_level": bound[0], "data_offset": bound[2], "index_offset": bound[3]}
         bad = [k for k, v in want.items() if fld.get(k) != v]
         if bad:
             res.fail("zoomHeaders[%s]/flow" % en, lits[0], "ZoomHeader fields %s are not fed from the reads in directory order (level, reserved, data, index)" % bad)
             continue
         res.ok(arm, "zoom directory (%s arm): u32 level,u32 reserved,u64 data,u64 index -> ZoomHeader fields, pushed in file order" % en)
+
+
+def _tail(b):
+    b = strip(b)
+    while isinstance(b, Node) and b.k == "block":
+        st = b["stmts"]
+        if not st or st[-1].k != "expr_stmt" or st[-1].get("semi"):
+            return None
+        b = strip(st[-1]["e"])
+    return b
 
 
 def ob_read_chrom_tree_block(ctx, res):
